@@ -36,7 +36,7 @@ def rmtree(d):
     shutil.rmtree(d, ignore_errors=True)
 
 
-def run_rg(args, cwd, close_after=None, timeout=60, nobody=True, env=None):
+def run_rg(args, cwd, close_after=None, timeout=300, nobody=True, env=None):
     """runs rg; returns dict(status, out, err, secs, timeout).  close_after=k: read exactly k bytes of stdout
     (or to EOF), then close the read end."""
     cmd = (NOBODY if nobody else []) + [vlib.RG, "--no-config"] + list(args)
